@@ -46,9 +46,9 @@ never through rich.color).
          all n, #hex / rgb() on a per-channel grid (quick 25, thorough 70 values + each
          channel over all 256), default, on, link.
 
-Measured: quick 5.2 M evaluations (19.6 k cache histories), 368 distinct outcome signatures,
-~90 CPU-s (19 s wall with 6 workers); thorough 26.3 M evaluations (78 k histories), 384 signatures,
-~12 CPU-min (3.4 min wall with 6 workers).
+Measured: quick 5.4 M evaluations (19.6 k cache histories, 56.6 k fault-history runs), 608 distinct
+outcome signatures, ~115 CPU-s (103 s wall on 16 workers at load average 180; ~20 s on a quiet
+machine); thorough 28.8 M evaluations (78 k + 630 k histories), 624 signatures, ~16 CPU-min.
 """
 import itertools
 import os
